@@ -32,6 +32,7 @@ def check(c: Check):
     from .common import check_application_purity
     check_application_purity(c, 'C13-e', ['exactly_lib.type_val_prims.string_transformer:StringTransformer', 'exactly_lib.type_val_prims.matcher.matcher_base_class:MatcherWTrace'], floor=25)
     clause_f(c)
+    clause_h(c)
     # g: line numbers and interval limits - 0 is a number, None is "no limit"
     check_zero_is_a_value(c, 'C13-g', ['exactly_lib.util.interval.int_interval',
                                        'exactly_lib.util.interval.w_inversion.combinations',
@@ -456,3 +457,124 @@ def clause_f(c: Check):
         r = single_return_expr(ba)
         ok = isinstance(r, ast.Call) and isinstance(r.func, ast.Attribute) and r.func.attr == 'visit_non_standard'
         c.expect(ok, 'C13-f', 'accept/default', 'the default accept is not visit_non_standard', ba.loc())
+
+
+# ---------------------------------------------------------------- h
+def clause_h(c: Check):
+    """DT of the limits of union / intersection over which limits the operands HAVE (a limit is None = unlimited on
+    that side, or a number): the union of two intervals is unlimited on a side as soon as ONE operand is, the
+    intersection only when BOTH are; where both have a limit the result is the min / max of exactly those two - the
+    outer ones for the union (min of the lowers, max of the uppers), the inner ones for the intersection.  Evaluated
+    for the 4 x 4 combinations of operand kinds (unlimited, lower limit, upper limit, finite) with symbolic numbers;
+    the arithmetic itself (which number is smaller) is not evaluated.  A union that keeps the limit of one operand
+    where the other has none makes `filter ( line-num <= 2 || line-num >= 6 )` stop reading after line 2."""
+    ix, fo = c.ix, c.fo
+    union = ix.func(COMB + ':union')
+    inter = ix.func(COMB + ':intersection')
+    of = ix.func(COMB + ':_of')
+    kinds = {
+        'unlimited': (False, False),
+        'lower-limit': (True, False),
+        'upper-limit': (False, True),
+        'finite': (True, True),
+    }
+    iv_base = ix.cls('exactly_lib.util.interval.w_inversion.interval:IntIntervalWInversion')
+    n = 0
+    for fn, name in ((union, 'union'), (inter, 'intersection')):
+        for ka, (a_lo, a_up) in kinds.items():
+            for kb, (b_lo, b_up) in kinds.items():
+                limits = {}
+                for who, has_lo, has_up in (('a', a_lo, a_up), ('b', b_lo, b_up)):
+                    limits[who] = {
+                        'lower': Sym('%s.lower' % who, nullness=False, origin=('limit', who, 'lower')) if has_lo else NONE,
+                        'upper': Sym('%s.upper' % who, nullness=False, origin=('limit', who, 'upper')) if has_up else NONE,
+                        'is_empty': K(False),
+                    }
+
+                class H(Hooks):
+                    def inline(self, fd, st):
+                        return fd.module is fn.module and fd is not of
+
+                    def on_call(self, interp, node, callee, callee_def, args, kwargs, st):
+                        # min / max of a known, non-empty collection of numbers is a number (never None); of an
+                        # empty one it is the `default`
+                        if isinstance(callee_def, External) and callee_def.dotted in ('builtins.min', 'builtins.max'):
+                            items = interp.concrete_items(args[0]) if len(args) == 1 else list(args)
+                            if items is None:
+                                return None
+                            if not items:
+                                return [('val', kwargs['default'], st)] if 'default' in kwargs else None
+                            return [('val', Sym(callee_def.dotted.split('.')[-1], nullness=False,
+                                                origin=('call', callee_def.dotted, tuple(args), dict(kwargs))), st)]
+                        return None
+
+                it = Interp(ix, fo, H())
+                st = State()
+                objs = {}
+                for who in ('a', 'b'):
+                    o = it.new_obj(iv_base)
+                    for attr, v in limits[who].items():
+                        st.heap[(o.oid, attr)] = v
+                    objs[who] = o
+                pa, pb = [p_.arg for p_ in fn.positional_params()[:2]]
+                for p in it.run_function(fn, {pa: objs['a'], pb: objs['b']}, st):
+                    n += 1
+                    c.count()
+                    ev = [e for e in p.calls() if e.data.get('callee') is of]
+                    key = '%s/%s/%s' % (name, ka, kb)
+                    if not ev:
+                        if name == 'intersection' and p.kind == 'return' and util.constructed_class(ix, p.val) is not None \
+                                and util.constructed_class(ix, p.val).endswith(':Empty'):
+                            continue   # the empty intersection (decided by comparing the numbers): not judged here
+                        c.bad('C13-h', key, 'the %s of %s and %s is %s, not built from the limits of the operands' % (
+                            name, ka, kb, util.describe(p.val) if p.kind == 'return' else p.kind), fn.loc())
+                        continue
+                    args = ev[-1].data['args']
+                    got = tuple(_limit_shape(it, x) for x in args[:2])
+                    want = []
+                    for side, outer in (('lower', 'min'), ('upper', 'max')):
+                        present = [w for w in ('a', 'b') if limits[w][side] is not NONE]
+                        if name == 'union':
+                            want.append('none' if len(present) < 2 else (outer, ('a', 'b')))
+                        else:
+                            inner = 'max' if outer == 'min' else 'min'
+                            want.append('none' if not present else (inner, tuple(present)) if len(present) == 2
+                                        else ('is', tuple(present)))
+                    c.expect(got == tuple(want), 'C13-h', key,
+                             'the %s of %s and %s has (lower, upper) = %s; by the definition of %s it is %s' % (
+                                 name, ka, kb, got, name, tuple(want)), fn.loc())
+    c.floor('C13-h', 'paths of union / intersection over the kinds of operands', n, 32)
+
+
+def _limit_shape(it, v):
+    """'none' | ('is', (who,)) | ('min'|'max', (who, who)) | ('?', description)"""
+    if isinstance(v, K) and v.v is None:
+        return 'none'
+    r = util.root_sym(v) if isinstance(v, Sym) else v
+    if isinstance(r, Sym) and r.origin and r.origin[0] == 'limit':
+        return ('is', (r.origin[1],))
+    if isinstance(r, Sym) and r.origin and r.origin[0] == 'call' and str(r.origin[1]) in ('builtins.min', 'builtins.max'):
+        args = list(r.origin[2])
+        items = []
+        if len(args) == 1:
+            xs = it.concrete_items(args[0])
+            if xs is None:
+                return ('?', util.describe(v))
+            items = xs
+        else:
+            items = args
+        who = []
+        for x in items:
+            rx = util.root_sym(x) if isinstance(x, Sym) else x
+            if isinstance(rx, Sym) and rx.origin and rx.origin[0] == 'limit':
+                who.append(rx.origin[1])
+            else:
+                return ('?', util.describe(v))
+        fnm = str(r.origin[1]).split('.')[-1]
+        if not who:
+            d = r.origin[3].get('default') if len(r.origin) > 3 else None
+            return 'none' if isinstance(d, K) and d.v is None else ('?', util.describe(v))
+        if len(who) == 1:
+            return ('is', tuple(who))
+        return (fnm, tuple(sorted(who)))
+    return ('?', util.describe(v))
